@@ -241,7 +241,27 @@ JudgeRoundTrip(e) ==
        \cup R(e.wfp2 = e.wfp, "rewrite")
 
 (* ---- the step ------------------------------------------------------------------------------- *)
-NeedsSRS == {"Commit", "Open", "Verify", "BatchOpenSinglePoint", "FoldProof", "BatchVerifySinglePoint", "BatchVerifyMultiPoints"}
+(* ---- ToLagrangeG1 (extension of the reference-string clause) --------------------------- *)
+\* the m monomial points [tau^j]G1 become [L_i(tau)]G1, L_i the Lagrange basis on the subgroup <w> of order m:
+\* L_i(tau) = 1/m sum_j (tau / w^i)^j, i.e. the inverse DFT of (tau^j)_j
+IsPow2(m) == m >= 1 /\ \E k \in 0..30 : m = 2^k
+LagExps(e) ==
+  LET ws == [i \in 1..e.m |-> PowMod(e.w, FromInt(i - 1), TrR)]
+      minv == InvMod(FromInt(e.m), TrR)
+  IN [i \in 1..e.m |->
+        LET x == MulMod(tau, InvMod(ws[i], TrR), TrR) IN
+        MulMod(minv, FoldLeft(LAMBDA acc, j : Mod(Add(acc, PowMod(x, FromInt(j - 1), TrR)), TrR), Zero, [j \in 1..e.m |-> j]), TrR)] \o <<>>
+LagInputsOK(e) == Has(e, "w") /\ ScalarOK(e.w) /\ PowMod(e.w, FromInt(e.m), TrR) = One
+                  /\ (e.m = 1 \/ PowMod(e.w, FromInt(e.m \div 2), TrR) # One)
+JudgeLagrange(e) ==
+  IF Panicked(e) THEN {"panic"}
+  ELSE IF ~IsPow2(e.m) THEN R(IsErr(e), "swallowed-error")
+  ELSE IF IsErr(e) THEN {"spurious-error"}
+  ELSE IF ~LagInputsOK(e) THEN {"badinput"}
+  ELSE R(Len(e.out) = e.m, "length") \cup R(Len(e.out) # e.m \/ AreMuls(e.out, LagExps(e)), "value")
+       \cup KeysSame(e)
+
+NeedsSRS == {"ToLagrangeG1", "Commit", "Open", "Verify", "BatchOpenSinglePoint", "FoldProof", "BatchVerifySinglePoint", "BatchVerifyMultiPoints"}
 
 Judge(e) ==
   IF e.op \in NeedsSRS /\ ~live THEN {"no-srs"}
@@ -254,6 +274,7 @@ Judge(e) ==
          [] e.op = "BatchVerifySinglePoint" -> JudgeBatchVerify(e)
          [] e.op = "BatchVerifyMultiPoints" -> JudgeMulti(e)
          [] e.op = "RoundTrip" -> JudgeRoundTrip(e)
+         [] e.op = "ToLagrangeG1" -> JudgeLagrange(e)
          [] OTHER -> {"unknown-op"}
 
 \* exponents whose points the judgement of e needs (inputs the harness declares, outputs the machine prescribes)
@@ -268,6 +289,7 @@ Exps(e) ==
     [] e.op = "FoldProof" -> OkSeq(e.des) \o (IF ScalarsOK(e.des) /\ FoldReply(e).ok THEN <<FoldReply(e).c>> ELSE <<>>)
     [] e.op = "BatchVerifySinglePoint" -> OkSeq(e.des \o <<e.he>>)
     [] e.op = "BatchVerifyMultiPoints" -> OkSeq(e.ces \o e.hes)
+    [] e.op = "ToLagrangeG1" -> IF IsPow2(e.m) /\ ~Panicked(e) /\ ~IsErr(e) /\ LagInputsOK(e) THEN LagExps(e) ELSE <<>>
     [] OTHER -> <<>>
 
 \* successor state per the SPECIFICATION
